@@ -77,6 +77,13 @@ class EscapeStr(Contract):
         return {'ninja_reads_value_back': literal_value(nj_value, rt, s),
                 'text_is_dollar_doubling': rt == FR.dol(s)}
 
+    def apply_at_call(self, I, bound, site, frame):
+        if isinstance(bound.get('string'), str):
+            # a concrete string: the caller interprets the body (the result is then the concrete text)
+            from pyvc.interp import InlineInstead
+            raise InlineInstead()
+        return Contract.apply_at_call(self, I, bound, site, frame)
+
     def result_value(self, I, a):
         return fresh_sym('esc', 'str')
 
